@@ -11,7 +11,15 @@ Oracles (each with its own key):
   block/..       __call__(u,v) with different sizes gives the (m,n) block, K(v,u) = K(u,v)^T
   sym/.. psd/..  symmetric, positive semi-definite
   grad/..        covariance_and_gradients: K == build_covariance, every gradient == exact partial derivative
-  compose/..     composite value / gradient list == sum / concatenation of stand-alone component instances
+  compose/..     composite value / gradient list == sum / concatenation of stand-alone component instances; pairwise __call__ of a sum
+                 (on x,x and on rectangular blocks) == sum over its NON-noise components, each evaluated stand-alone with ITS OWN slice of
+                 theta (compose/<family>/pairwise-not-sum-of-signal-components-with-own-parameters), with a noise component (WhiteNoise,
+                 HeteroscedasticNoise) in every position: first, middle, last, twice, nested, inside / around a change-point
+  compose/.. (evaluator userbounds)  every given / not-given combination of hyperpar_bounds per component of a sum / constructor-built
+                 composite / ChangePoint and of location_bounds x width_bounds of a ChangePoint: what the user gave is what the composite
+                 reports at its positions (../component-bounds-given-by-user-not-kept, compose/ChangePoint/location-bounds-given-by-user-not-kept,
+                 ../width-bounds-given-by-user-not-kept, ../location-width-bounds-order); not given: the stand-alone component's own estimate
+                 (../component-bounds-not-given-differ-from-stand-alone-estimate) resp. any valid interval (../default-<location|width>-bounds-invalid)
   mean/..        build_mean == __call__ at the data == formula; gradients == exact partial derivatives
   history/..     differential: in every short history of constructions (+, ChangePoint, CompositeCovariance on live objects incl.
                  earlier composites) and uses (pass_spatial_data, estimate_hyperpar_bounds, evaluations) every live object keeps
@@ -60,6 +68,20 @@ KERNELS = [
     ["add", "WN", ["cp", 0, "SE", "SE", "SE"]],
     ["add", ["cp", 0, "SE", "RQ"], ["cp", 0, "RQ", "SE"]],
     ["cp", 0, ["cp", 0, "SE", "SE", "SE"], "RQ"],
+    # a noise component in every position of a sum: first, middle, last, two noise terms, nested, inside / around a change-point
+    ["add", "WN", "SE"],
+    ["add", "HN", "SE"],
+    ["add", "SE", "WN", "SE"],
+    ["add", "RQ", "HN", "SE"],
+    ["add", "WN", "RQ", "WN"],
+    ["add", "HN", "WN", "RQ"],
+    ["add", "WN", "SE", "HN"],
+    ["add", "SE", "WN", "RQ", "HN"],
+    ["comp", "WN", ["comp", "HN", "RQ"]],
+    ["comp", ["comp", "SE", "WN"], "SE"],
+    ["cp", 0, ["add", "WN", "SE"], "RQ"],
+    ["cp", 0, "SE", ["add", "HN", "RQ"]],
+    ["add", "HN", ["cp", 0, "SE", "RQ"], "SE"],
 ]
 ND_ALL = [(n, d) for d in (1, 2, 3) for n in (1, 2, 3, 4, 5, 6, 8)]
 DESIGNS = ["regular", "dups", "clustered", "permuted"]
@@ -306,6 +328,26 @@ def ev_kernel(case):
                 fails.append(fail(f"compose/{fam}/value-not-sum-of-components", f"{name}: K differs from the sum of stand-alone components by {e:.3e}", **det))
             if len(pg) != len(grads) or any(np.abs(a - b).max() > 8 * EPS * D * s for a, b, s in zip(pg, grads, sp)):
                 fails.append(fail(f"compose/{fam}/gradients-not-concatenated", f"{name}: gradient list is not the concatenation of the components' gradients", **det))
+            # pairwise evaluation: the composite's __call__ is the sum over its NON-noise components, each evaluated stand-alone with
+            # ITS OWN slice of the hyper-parameter vector (the index-delta terms of the noise components exist only in the builder)
+            signal = [(o, a, b) for o, c, a, b in zip(objs, comps, pos[:-1], pos[1:]) if not (isinstance(c, str) and c in R.NOISE)]
+            where = ",".join("N" if (isinstance(c, str) and c in R.NOISE) else "S" for c in comps)
+            for nameuv, A_, B_ in (("(x,x)", X, X), ("(u,x)", U, X), ("(x,u)", X, U)):
+                try:
+                    with lib(f"composite.__call__{nameuv}"):
+                        Kc_ = np.asarray(k(A_.copy(), B_.copy(), theta.copy()), dtype=float)
+                    with lib(f"component.__call__{nameuv}"):
+                        Ks_ = sum((np.asarray(o(A_.copy(), B_.copy(), theta[a:b].copy()), dtype=float) for o, a, b in signal), np.zeros((A_.shape[0], B_.shape[0])))
+                    nev += 1 + len(signal)
+                except LibFailure as e:
+                    fails.append(fail(f"compose/{pcls(spec, d)}/pairwise-raises:{e.exc_type}", f"{name} d={d}: pairwise evaluation {nameuv} raised {e}", traceback=e.tb, **det))
+                    continue
+                e = np.abs(Kc_ - Ks_).max() if Kc_.shape == Ks_.shape else float("inf")
+                if sl("compose/pairwise", e, 8 * EPS * D) > 1:
+                    fails.append(fail(f"compose/{fam}/pairwise-not-sum-of-signal-components-with-own-parameters",
+                                      f"{name} (components signal/noise: {where}): __call__{nameuv} differs from the sum of the stand-alone non-noise components, each with its own slice of theta, by {e:.3e}", theta=theta, X=X, **det))
+            if "N" in where:
+                tags.add(f"compose-pairwise:{kd}:{where}")
         # bounds (needs n >= 2 and spread in the data for the estimates to exist)
         if n >= 2 and case["design"] != "dups":
             y = R.y_values(X)
@@ -334,15 +376,20 @@ def ev_kernel(case):
 
 
 def ev_userbounds(case):
-    """bounds given by the user to a component must appear, in order, in the composite's bounds"""
+    """bounds given by the user (to a component, or as location_bounds / width_bounds of a ChangePoint) must be what the composite
+    reports at their positions; what was NOT given is the stand-alone component's own estimate (components) or a valid interval
+    (change-point location / width).  case: form in sum / comp / cp, given = [bool per component], loc / wid = bool (cp only)."""
     from inference.gp.covariance import ChangePoint, CompositeCovariance, RationalQuadratic, SquaredExponential, WhiteNoise
 
     n, d = case["n"], case["d"]
     X = R.design("regular", n, d, case["seed"])
     y = R.y_values(X)
-    bse = [(-1.0 - 0.1 * i, 1.5 + 0.2 * i) for i in range(1 + d)]
-    brq = [(-2.0 + 0.1 * i, 0.5 + 0.3 * i) for i in range(2 + d)]
-    bwn = [(-5.5, -0.25)]
+    ub = {
+        "SE": [(-1.0 - 0.1 * i, 1.5 + 0.2 * i) for i in range(1 + d)],
+        "RQ": [(-2.0 + 0.1 * i, 0.5 + 0.3 * i) for i in range(2 + d)],
+        "WN": [(-5.5, -0.25)],
+    }
+    cls_of = {"SE": SquaredExponential, "RQ": RationalQuadratic, "WN": WhiteNoise}
     loc = [(0.1 + 0.2 * q, 0.3 + 0.2 * q) for q in range(3)]
     wid = [(0.01 * (q + 1), 0.5 + 0.1 * q) for q in range(3)]
     fails, tags, nev = [], set(), 0
@@ -352,23 +399,41 @@ def ev_userbounds(case):
 
     form = case["form"]
     if form == "sum":
-        k = SquaredExponential(hyperpar_bounds=list(bse)) + RationalQuadratic() + WhiteNoise(hyperpar_bounds=list(bwn))
-        ref_rq = RationalQuadratic()
-        ref_rq.pass_spatial_data(X)
-        ref_rq.estimate_hyperpar_bounds(y)
-        exp = bse + list(ref_rq.bounds) + bwn
+        kinds = ["SE", "RQ", "WN"]
     elif form == "comp":
-        k = CompositeCovariance([RationalQuadratic(hyperpar_bounds=list(brq)), SquaredExponential(hyperpar_bounds=list(bse))])
-        exp = brq + bse
+        kinds = ["RQ", "SE"]
     else:
         nk = case["nk"]
-        kernels = [SquaredExponential(hyperpar_bounds=list(bse)) if q % 2 == 0 else RationalQuadratic(hyperpar_bounds=list(brq)) for q in range(nk)]
-        k = ChangePoint(kernels=kernels, location_bounds=loc[: nk - 1], width_bounds=wid[: nk - 1])
-        exp = []
-        for q in range(nk):
-            exp += bse if q % 2 == 0 else brq
-        for q in range(nk - 1):
-            exp += [loc[q], wid[q]]
+        kinds = ["SE" if q % 2 == 0 else "RQ" for q in range(nk)]
+    given = list(case.get("given", [True, False, True] if form == "sum" else [True] * len(kinds)))
+    loc_given, wid_given = bool(case.get("loc", True)), bool(case.get("wid", True))
+    with lib("component constructors"):
+        parts = [cls_of[kd](hyperpar_bounds=list(ub[kd])) if g else cls_of[kd]() for kd, g in zip(kinds, given)]
+    # what each component says on its own: the given bounds, else the estimate of a stand-alone instance on the same data
+    exp = []
+    for kd, g in zip(kinds, given):
+        if g:
+            exp.append(list(ub[kd]))
+        else:
+            o = cls_of[kd]()
+            with lib("stand-alone component.estimate_hyperpar_bounds"):
+                o.pass_spatial_data(X.copy())
+                o.estimate_hyperpar_bounds(y.copy())
+            exp.append([tuple(b) for b in o.bounds])
+    with lib("composite constructor"):
+        if form == "sum":
+            k = parts[0]
+            for p_ in parts[1:]:
+                k = k + p_
+        elif form == "comp":
+            k = CompositeCovariance(parts)
+        else:
+            kw = {}
+            if loc_given:
+                kw["location_bounds"] = list(loc[: nk - 1])
+            if wid_given:
+                kw["width_bounds"] = list(wid[: nk - 1])
+            k = ChangePoint(kernels=parts, **kw)
     with lib("pass_spatial_data"):
         k.pass_spatial_data(X)
     with lib("estimate_hyperpar_bounds"):
@@ -376,24 +441,43 @@ def ev_userbounds(case):
     nev += 1
     got = [tuple(b) for b in k.bounds]
     cls = "Sum" if form in ("sum", "comp") else "ChangePoint"
+    det = dict(n=n, d=d, form=form, given=given, **({"nk": nk, "location_bounds_given": loc_given, "width_bounds_given": wid_given} if form == "cp" else {}))
+    ncomp = sum(len(e) for e in exp)
+    total = ncomp + (2 * (nk - 1) if form == "cp" else 0)
+    if len(got) != total:
+        fails.append(fail(f"compose/{cls}/bounds-count", f"{form}: {len(got)} bounds for {total} parameters: {got}", **det))
+        return {"fails": fails, "n": nev, "tags": tags}
+    pos = 0
+    for q, (kd, g, e) in enumerate(zip(kinds, given, exp)):
+        h = got[pos : pos + len(e)]
+        pos += len(e)
+        if not same(h, e):
+            if g:
+                fails.append(fail(f"compose/{cls}/component-bounds-given-by-user-not-kept",
+                                  f"{form}: component {q} ({kd}) was constructed with hyperpar_bounds={e}, the composite reports {h} at its positions (all: {got})", **det))
+            else:
+                fails.append(fail(f"compose/{cls}/component-bounds-not-given-differ-from-stand-alone-estimate",
+                                  f"{form}: component {q} ({kd}) had no bounds given; a stand-alone instance estimates {e} on the same data, the composite reports {h}", **det))
     if form == "cp":
-        nk = case["nk"]
-        ncomp = len(exp) - 2 * (nk - 1)
-        if not same(got[ncomp:], exp[ncomp:]):
-            fails.append(fail("compose/ChangePoint/location-width-bounds-order", f"change-point bounds {got[ncomp:]} != (location_i, width_i) pairs {exp[ncomp:]}", n=n, d=d, nk=nk))
-        if not same(got[:ncomp], exp[:ncomp]):
-            fails.append(
-                fail(
-                    "compose/ChangePoint/component-bounds-given-by-user-not-kept",
-                    f"ChangePoint of kernels constructed with hyperpar_bounds: composite bounds {got[:ncomp]} are not the components' given bounds {exp[:ncomp]}",
-                    n=n,
-                    d=d,
-                    nk=nk,
-                )
-            )
-    elif not same(got, exp):
-        fails.append(fail(f"compose/{cls}/component-bounds-given-by-user-not-kept", f"{form}: bounds {got} != {exp}", n=n, d=d))
-    tags.add(f"userbounds:{form}:{case.get('nk', 0)}")
+        tail = got[ncomp:]
+        gl, gw = tail[0::2], tail[1::2]
+        el, ew = loc[: nk - 1], wid[: nk - 1]
+        if loc_given and wid_given and not (same(gl, el) and same(gw, ew)) and sorted(map(tuple, tail)) == sorted(map(tuple, el + ew)):
+            fails.append(fail("compose/ChangePoint/location-width-bounds-order", f"change-point bounds {tail} != (location_i, width_i) pairs {[v for pr in zip(el, ew) for v in pr]}", **det))
+        else:
+            if loc_given and not same(gl, el):
+                fails.append(fail("compose/ChangePoint/location-bounds-given-by-user-not-kept",
+                                  f"ChangePoint(location_bounds={el}{', width_bounds given' if wid_given else ', width_bounds not given'}): the composite reports location bounds {gl} (all change-point bounds: {tail})", **det))
+            if wid_given and not same(gw, ew):
+                fails.append(fail("compose/ChangePoint/width-bounds-given-by-user-not-kept",
+                                  f"ChangePoint(width_bounds={ew}{', location_bounds given' if loc_given else ', location_bounds not given'}): the composite reports width bounds {gw} (all change-point bounds: {tail})", **det))
+        # not given: any valid interval (location: finite, lower < upper; width: 0 < lower < upper)
+        for nm_, isg, vals, lo_min in (("location", loc_given, gl, -np.inf), ("width", wid_given, gw, 0.0)):
+            if not isg and not all(np.isfinite(b).all() and b[0] < b[1] and b[0] > lo_min for b in (np.asarray(v, float) for v in vals)):
+                fails.append(fail(f"compose/ChangePoint/default-{nm_}-bounds-invalid", f"ChangePoint without {nm_}_bounds reports {vals}", **det))
+        tags.add(f"userbounds:cp:{nk}:components={''.join('G' if g else '-' for g in given)},location={'G' if loc_given else '-'},width={'G' if wid_given else '-'}")
+    else:
+        tags.add(f"userbounds:{form}:components={''.join('G' if g else '-' for g in given)}")
     return {"fails": fails, "n": nev, "tags": tags}
 
 
@@ -1247,10 +1331,14 @@ def run(ck):
     ck.run_cases("kernel", cases)
     ub = []
     for (n, d) in [(3, 1), (5, 2), (8, 3)]:
-        ub.append({"form": "sum", "n": n, "d": d, "seed": seed})
-        ub.append({"form": "comp", "n": n, "d": d, "seed": seed})
+        # every given / not-given combination: per component (hyperpar_bounds), and location_bounds x width_bounds of a ChangePoint
+        for form, m in (("sum", 3), ("comp", 2)):
+            for bits in range(2 ** m - 1, -1, -1):  # all given first
+                ub.append({"form": form, "n": n, "d": d, "seed": seed, "given": [bool(bits >> (m - 1 - q) & 1) for q in range(m)]})
         for nk in (2, 3, 4):
-            ub.append({"form": "cp", "nk": nk, "n": n, "d": d, "seed": seed})
+            for lg, wg in ((True, True), (True, False), (False, True), (False, False)):
+                for bits in range(2 ** nk - 1, -1, -1):
+                    ub.append({"form": "cp", "nk": nk, "n": n, "d": d, "seed": seed, "given": [bool(bits >> (nk - 1 - q) & 1) for q in range(nk)], "loc": lg, "wid": wg})
     ck.run_cases("userbounds", ub)
     mcases = []
     for name in R.MEANS:
@@ -1319,7 +1407,11 @@ def run(ck):
     ck.rule = (
         "every element of {%d kernel compositions (leaves, sums built with + and with the constructor incl. nested, change-points with 2,3,4 kernels, "
         "nested/summed change-points, change-point axis 0/1)} x {(n,d)} x {point designs: regular, exact duplicates, near-duplicates, permuted+stretched} x "
-        "{hyper-parameter level patterns}; three mean functions on the same (n,d) x designs x patterns; a case is distinct by (kernel, n, d, design) and by "
+        "{hyper-parameter level patterns}; the compositions include sums with a noise component in every position (first, middle, last, two noise terms, nested, inside and "
+        "around a change-point, WhiteNoise and HeteroscedasticNoise), for which the pairwise __call__ (x,x and rectangular blocks) must equal the sum over the non-noise components "
+        "evaluated stand-alone with their own slices of theta, and the builder that plus the documented diagonal terms; user-given bounds: every given / not-given combination of "
+        "hyperpar_bounds per component (sum of 3, constructor-built composite of 2, ChangePoint of 2, 3, 4 kernels) x every given / not-given combination of location_bounds and "
+        "width_bounds, on three (n, d): given bounds must be reported unchanged at their positions, not-given component bounds are the stand-alone estimate; three mean functions on the same (n,d) x designs x patterns; a case is distinct by (kernel, n, d, design) and by "
         "(family, pattern); block shapes and bound kinds exercised are counted too. Composition histories: every sequence of <= depth operations "
         "(quick 3; thorough 3 with three leaves and 4 with two) on one pool of live objects that starts with the leaf kernels, over {k_new = k_i + k_j, "
         "ChangePoint([k_i, k_j]) [, CompositeCovariance([k_i, k_j])] for all ordered pairs of live objects incl. earlier composites on either side, "
@@ -1346,6 +1438,7 @@ def run(ck):
     ck.assume("continuous inputs are represented by the listed deterministic point designs (n <= 8, d <= 3) and three levels per hyper-parameter block")
     ck.assume("jitter: any diagonal addition in [0, 1e-10*K_ii] is accepted as the documented 'small values added to the diagonal'; its exact size is not pinned")
     ck.assume("labels: a composite may prefix the component's label (suffix match accepted); mean functions may expand about the data centroid or the origin")
+    ck.assume("change-point location / width bounds that the user did NOT give are only required to be valid intervals (finite, lower < upper, width lower bound > 0): their default values are not pinned")
     ck.assume("hyper-parameter bounds are compared only where the library can estimate them (n >= 2, no coincident points)")
     ck.assume("composition histories use one data set (x, y) for all objects of a history, because composites share their component objects by design "
               "(giving different data to two composites that share a leaf legitimately changes both); bounds of an object are compared only if "
